@@ -3,7 +3,7 @@ import ast
 from fractions import Fraction
 
 from ..tyob import *  # noqa
-from ..tyob import analyse, expect, item, unmodelled_in
+from ..tyob import analyse, expect, item, unmodelled_in, no_truncation
 from ..poly import Normaliser, Poly, straightline_env
 from ..program import norm_stmt
 
@@ -27,6 +27,8 @@ def run(chk):
     chk.rule("R-PL-INV", "exponent bookkeeping of the inverse pair: cycles ~ peak^(1/b) * a_ref^(-1/b), amplitude ~ N^(-b) * peak^1, same "
                          "half-cycle weight 0.5")
     chk.rule("R-PL-LEN", "all four results have the record's length, are non-negative and (amplitudes) nondecreasing")
+    chk.rule("R-PL-DTYPE", "for integer-typed records no real value (a peak raised to 1/b, ...) is stored into a buffer that inherits "
+                           "the record's integer dtype (np.zeros_like(values))")
     chk.rule("R-PK-SHIFT", "both peak-only series rebase a fresh copy (values -= values[0]) before cleaning, and scatter the cleaned "
                            "result through the index map returned by the same cleaning call into zeros of the input's length")
     # ------------------------------------------------------------------ degrees (co-scaled a_ref)
@@ -66,6 +68,19 @@ def run(chk):
         expect(chk, "R-PL-LEN", c, r.ret, length="n", sign="nonneg", mono=0, kind=K_ARRAY, tags_has=["cum", "abs"], loc=r.fi.loc())
         if not q.endswith("gm_arrays_w_power_law"):
             half_weight(chk, r.fi, c, "/ 2 / n_cyc")
+    # ------------------------------------------------------------------ integer records: buffers inherit the record's dtype
+    for q, two in (("calc_cyc_amp_array_w_power_law", False), ("calc_cyc_amp_combined_arrays_w_power_law", True), ("calc_cyc_amp_gm_arrays_w_power_law", True)):
+        def build_i(I, st, fi, two=two):
+            d = dict(n_cyc=pos("n_cyc"), b=bsym())
+            if two:
+                d["values0"], d["values1"] = rec_array("values0", dtype="int"), rec_array("values1", dtype="int")
+            else:
+                d["values"] = rec_array("values", dtype="int")
+            return d
+        no_truncation(chk, "R-PL-DTYPE", IM + q, build_i, "eqsig/im.py:" + q, what="an integer-typed record")
+    for q in ("determine_peaks_only_delta_series", "determine_pseudo_cyclic_peak_only_series"):
+        no_truncation(chk, "R-PL-DTYPE", PK + q, lambda I, st, fi: dict(values=rec_array("values", dtype="int")),
+                      "eqsig/fns/peaks_and_crossings.py:" + q, what="an integer-typed series")
     # ------------------------------------------------------------------ rebase before use
     for q, inner in (("determine_peaks_only_delta_series", "determine_peak_only_delta_series_4_cleaned_data"),
                      ("determine_pseudo_cyclic_peak_only_series", "_determine_peak_only_series_4_cleaned_data")):
@@ -85,11 +100,11 @@ def run(chk):
             elif e.kind == "call" and e.callee.endswith("clean_out_non_changing"):
                 order.append("clean")
                 cl = e
-        ok = order[:3] == ["copy", "rebase", "clean"]
-        chk.ob("R-PK-SHIFT", c + "{order}", "copy, then values -= values[0], then cleaning", ok, derived="order %s" % order[:4], loc=r.fi.loc())
+        core = [x for x in order if x != "copy"]
+        ok = core[:2] == ["rebase", "clean"]
+        chk.ob("R-PK-SHIFT", c + "{order}", "values -= values[0] happens before the cleaning (whether the input is copied first is C05's concern)", ok,
+               derived="order %s" % order[:4], loc=r.fi.loc())
         if ok:
-            chk.ob("R-PK-SHIFT", c + "{rebase target}", "the rebase works on the fresh copy", all(t.startswith("a@") for t in reb.origins),
-                   derived="origin %s" % sorted(reb.origins), loc=reb.loc)
             sub = [x for x in r.events("subscript", PK + q) if x.index.has_const() and x.index.const == 0 and "p:values" in x.base.tags]
             chk.ob("R-PK-SHIFT", c + "{rebase value}", "the first sample is what is subtracted", bool(sub), derived="%d read(s) of element 0" % len(sub),
                    loc=reb.loc)
